@@ -95,7 +95,7 @@ fn tier_params(tier: &str) -> Tier {
             a: 6_000,
             a_k: 4,
             b: 3_000,
-            c: 3_000,
+            c: 3_600,
         },
     }
 }
